@@ -30,6 +30,11 @@ CLAIMED = {
         "text": "The permutation computed by one sort_nodes_impl call is applied to the whole key set of the table / tree (df.columns, every ndata key: extra columns are carried) and ids/parent ids are overwritten by that call's new topology; in the kernel one pop fills one slot, the id counter is read for the slot and as the children's new parent before its single unconditional +1 and is never decreased (hence parent id < child id and ids 0..n-1), children are the rows whose parent id equals the popped id, and the row index is old-id -> old-position through a dict (ids never index arrays). Recursion-free.",
         "note": ASSUME,
     },
+    "C06": {
+        "technique": "AST def-use / sentinel rules, decision tables by constant folding, CFG must-pass, call-graph cycle check, ownership interpretation",
+        "text": "Structural clauses of subtree extraction and pruning: the survivors' columns are gathered for the source's whole key set with the one old-id mapping returned by the compaction call, id/pid come from that call, and the reported mapping (list or dict form) is filled from the same value; the start node's parent is reset to -1 on every path to the return; compaction filters ids and parents with the same keep mask, builds old->new after filtering, maps -1 to -1; the removal marker is negative and not -1 and is inherited by descendants through the traversal's enter value; selection rules (pre-order descendants from the start node, exactly the given ids marked, cut_tree enter/leave wrappers, CutByType ancestor-keeping, furcation-order level table and cut threshold) are decided as small decision tables; recursion-free; source untouched and result fresh (ownership interpreter).",
+        "note": ASSUME,
+    },
 }
 
 NOT_BUILT = "check not built yet in this round (planned, see DESIGN.md section 4); nothing is claimed"
